@@ -318,7 +318,7 @@ fn blob_tree_open_first_id(index: &Tree) -> (r: u64)
         // ... and above every id that still has garbage statistics recorded (a new blob file never inherits an entry)
         forall|id: u64| #[trigger] index.v.gc_stats.view().contains_key(id) ==> id < r,
 {
-//@ FROM src/blob_tree/mod.rs :: impl BlobTree :: fn open :: STMTS `>fsync_directory ( & blobs_folder )` .. `let blob_file_id_to_continue_with =` :: OBL C09.6, C04.5
+//@ FROM src/blob_tree/mod.rs :: impl BlobTree :: fn open :: STMTS `>fsync_directory ( & blobs_folder )` .. `let blob_file_id_to_continue_with =` :: OBL C09.6, C04.5, C19.4
     let version = index.current_version();
 
     let blob_file_id_to_continue_with = version
